@@ -180,7 +180,13 @@ func (m *Engine) InputIsTerminator() bool {
 		binds[sequence] = inputrc.Bind{Action: "abort", Macro: false}
 	}
 
-	bind, _, _, _ := m.dispatchKeys(binds)
+	bind, _, read, _ := m.dispatchKeys(binds)
+
+	// No key is pending: the terminator, if any, is the key
+	// that invoked the command currently running (see abort).
+	if len(read) == 0 {
+		bind = m.active
+	}
 
 	return bind.Action == "abort"
 }
